@@ -39,11 +39,11 @@ Section Sim.
   Variable pool : list pentry.
 
   Definition dyn e r st out st' (c : code) :=
-    forall n s rs D prog,
+    forall n s rs D prog brk,
       known_expr e = false ->
       inv st D s rs -> (forall x, D x = true -> reads x e = false) ->
       dest_ok st r rs D e -> tbase st + tused st' <= N.of_nat (length rs) ->
-      code_at prog (ip st) c ->
+      cares prog brk (ip st) c ->
       match eval n s e with
       | ONorm v s' =>
         exists rs', star pool prog (ip st) rs (ip st') rs' /\ length rs' = length rs /\
@@ -106,11 +106,12 @@ Section Sim.
                (do result <- assign_result_register r; do _ <- emit_opt (o_reg result) mk; ret result)) ->
     (forall n s, eval (S n) s e = ONorm v s) ->
     (forall reg next rs, exec pool (mk reg) next rs = put rs reg v next) ->
+    (forall reg, is_hole (mk reg) = false) ->
     (forall x, assigns x e = false) ->
     forall r st out st' c, comp pool e r st = OK (out, st', c) -> wfst st ->
       facts st r out st' c e /\ dyn e r st out st' c.
   Proof.
-    intros e mk v HC HE HX HA r st out st' c H W. rewrite HC in H. minv H.
+    intros e mk v HC HE HX HH HA r st out st' c H W. rewrite HC in H. minv H.
     all: match goal with H : assign_result_register _ _ = OK _ |- _ =>
       pose proof (fun rs D e => shape_reg_bound _ _ _ _ _ rs D e H W) as RB;
       apply assign_result_inv in H; [|assumption];
@@ -126,11 +127,11 @@ Section Sim.
         * destruct r; cbn [shape]; destruct SH as (-> & SH); cbn [tcount set_ip]; try subst; auto;
             try (cbn in OR; discriminate).
           left. destruct SH. split; auto.
-      + intros n s rs D prog K IV RD DO B CA. destruct n; [exact Logic.I|]. rewrite HE.
+      + intros n s rs D prog brk K IV RD DO B CA. destruct n; [exact Logic.I|]. rewrite HE.
         assert (RL : reg < N.of_nat (length rs)).
         { eapply RB; eauto. }
         destruct (set_ok rs reg v RL) as (rs' & SET).
-        exists rs'. cbn [app] in CA. rewrite I1 in *.
+        exists rs'. cbn [app] in CA. apply cares_one in CA; [|apply HH]. rewrite I1 in *.
         assert (ST : istep pool prog (ip st) rs = SNext (ip st + size (mk reg)) rs').
         { rewrite (istep_at _ _ _ _ rs CA), HX. unfold put. rewrite SET. reflexivity. }
         splits.
@@ -156,7 +157,7 @@ Section Sim.
       split.
       + unfold facts. cbn [app code_size]. splits; try lia; auto.
         destruct r; cbn [shape]; destruct SH as (-> & SH); try subst; auto. cbn in OR. discriminate.
-      + intros n s rs D prog K IV RD DO B CA. destruct n; [exact Logic.I|]. rewrite HE.
+      + intros n s rs D prog brk K IV RD DO B CA. destruct n; [exact Logic.I|]. rewrite HE.
         exists rs. rewrite I1. splits; auto.
         * constructor.
         * eapply inv_weaken; [eapply inv_ext; eauto|]. intros. apply dirty_mono. assumption.
@@ -195,7 +196,7 @@ Section Sim.
     destruct r as [| |d].
     - unfold ret in H. inversion H; subst. split.
       + unfold facts. cbn. splits; auto using ext_refl. lia.
-      + intros n s rs D prog K IV RD DO B CA. destruct n; [exact Logic.I|]. cbn [eval].
+      + intros n s rs D prog brk K IV RD DO B CA. destruct n; [exact Logic.I|]. cbn [eval].
         exists rs. splits; auto.
         * constructor.
         * eapply inv_weaken; eauto. intros. apply dirty_mono. assumption.
@@ -204,7 +205,7 @@ Section Sim.
     - unfold ret in H. inversion H; subst. split.
       + unfold facts. cbn [code_size shape]. splits; auto using ext_refl; try lia.
         right. exists x, l. cbn [out_var]. auto.
-      + intros n s rs D prog K IV RD DO B CA. destruct n; [exact Logic.I|]. cbn [eval].
+      + intros n s rs D prog brk K IV RD DO B CA. destruct n; [exact Logic.I|]. cbn [eval].
         exists rs. splits; auto.
         * constructor.
         * eapply inv_weaken; eauto. intros. apply dirty_mono. assumption.
@@ -215,13 +216,13 @@ Section Sim.
       + unfold facts. cbn [app code_size size set_ip ip tcount shape]. splits; auto; try lia.
         * apply ext_set_ip.
         * apply wfst_set_ip. assumption.
-      + intros n s rs D prog K IV RD DO B CA. destruct n; [exact Logic.I|]. cbn [eval].
+      + intros n s rs D prog brk K IV RD DO B CA. destruct n; [exact Logic.I|]. cbn [eval].
         destruct (DO _ eq_refl) as (DL & DR & DF).
         assert (GV : get rs l = Some (s x)).
         { eapply inv_agree; eauto.
           destruct (D x) eqn:Dx; [|reflexivity]. apply RD in Dx. cbn in Dx. rewrite N.eqb_refl in Dx. discriminate. }
         destruct (set_ok rs d (s x) DL) as (rs' & SET).
-        exists rs'. cbn [app] in CA.
+        exists rs'. cbn [app] in CA. apply cares_one in CA; [|reflexivity].
         assert (ST : istep pool prog (ip st) rs = SNext (ip st + size (ICopy d l)) rs').
         { rewrite (istep_at _ _ _ _ rs CA). cbn [exec]. unfold with_reg. rewrite GV. unfold put. rewrite SET. reflexivity. }
         splits.
@@ -243,9 +244,9 @@ Section Sim.
     intros a IH r st out st' c H W Dr. cbn [comp dropped] in *.
     destruct (IH r st out st' c H W Dr) as (F & Dy). split.
     - unfold facts, shape in *. cbn [out_var]. exact F.
-    - intros n s rs D prog K IV RD DO B CA. destruct n; [exact Logic.I|]. cbn [eval].
+    - intros n s rs D prog brk K IV RD DO B CA. destruct n; [exact Logic.I|]. cbn [eval].
       cbn [known_expr] in K.
-      specialize (Dy n s rs D prog K IV RD).
+      specialize (Dy n s rs D prog brk K IV RD).
       assert (DO' : dest_ok st r rs D a).
       { intros d E. destruct (DO d E) as (A1 & A2 & A3). splits; auto. }
       specialize (Dy DO' B CA). destruct (eval n s a); auto.
@@ -324,9 +325,9 @@ Section Sim.
       + destruct r; cbn [shape]; cbn in Dn; try discriminate.
         * left. destruct SH as (-> & SH1 & SH2). split; [reflexivity|]. lia.
         * destruct SH as (-> & ->). split; [reflexivity|assumption].
-    - intros n s rs D prog K IV RD DO B CA. destruct n; [exact Logic.I|]. cbn [eval].
+    - intros n s rs D prog brk K IV RD DO B CA. destruct n; [exact Logic.I|]. cbn [eval].
       cbn [known_expr] in K. apply orb_false_elim in K as [K Kb]. apply orb_false_elim in K as [AL Ka].
-      norm_code CA. apply code_at_app in CA as [CA1 CA]. apply code_at_app in CA as [CA2 CA3].
+      norm_code CA. apply cares_app in CA as [CA1 CA]. apply cares_app in CA as [CA2 CA3].
       assert (RL : reg < N.of_nat (length rs)).
       { eapply RB; eauto. pose proof (ext_used _ _ E1'). lia. }
       assert (IV1 : inv st1 D s rs) by (eapply inv_ext; eauto).
@@ -337,14 +338,14 @@ Section Sim.
       assert (B1 : tbase st1 + tused st2 <= N.of_nat (length rs)).
       { pose proof (ext_used _ _ E2'). lia. }
       rewrite <- I1 in CA1.
-      specialize (DA n s rs D prog Ka IV1 RDa (dest_ok_any _ _ _ _) B1 CA1).
+      specialize (DA n s rs D prog brk Ka IV1 RDa (dest_ok_any _ _ _ _) B1 CA1).
       destruct (eval n s a) as [va s1| | | |]; try contradiction; [|rewrite <- I1; exact DA|exact Logic.I].
       destruct DA as (rs1 & S1 & LN1 & IVa & RA & FRa & SFa).
       apply dirty_any in IVa.
       assert (B2 : tbase st2 + tused st3 <= N.of_nat (length rs1)).
       { pose proof (ext_used _ _ E3'). pose proof (ext_tbase _ _ EA). rewrite LN1. lia. }
-      assert (CA2' : code_at prog (ip st2) cb) by (rewrite IA, I1; exact CA2).
-      specialize (DB n s1 rs1 D prog Kb IVa RDb (dest_ok_any _ _ _ _) B2 CA2').
+      assert (CA2' : cares prog brk (ip st2) cb) by (rewrite IA, I1; exact CA2).
+      specialize (DB n s1 rs1 D prog brk Kb IVa RDb (dest_ok_any _ _ _ _) B2 CA2').
       destruct (eval n s1 b) as [vb s2| | | |]; try contradiction;
         [|rewrite <- I1; eapply star_stops; [exact S1|exact DB]|exact Logic.I].
       destruct DB as (rs2 & S2 & LN2 & IVb & RBv & FRb & SFb).
@@ -353,7 +354,7 @@ Section Sim.
       { eapply (operand_kept st1 st2 st3 lo a b lreg rs1 rs2 va); eauto. }
       specialize (RBv _ ORR).
       assert (CA3' : code_at prog (ip st3) [IArith o reg lreg rreg]).
-      { rewrite IB, IA, I1. replace (ip st + code_size ca + code_size cb) with (ip st + code_size ca + code_size cb) by lia.
+      { apply (cares_one _ brk); [reflexivity|]. rewrite IB, IA, I1. replace (ip st + code_size ca + code_size cb) with (ip st + code_size ca + code_size cb) by lia.
         rewrite <- N.add_assoc. rewrite N.add_assoc. exact CA3. }
       assert (SS : star pool prog (ip st) rs (ip st3) rs2).
       { eapply star_trans; [rewrite <- I1; exact S1|exact S2]. }
@@ -490,9 +491,9 @@ Section Sim.
         * destruct SH as (-> & _). cbn in C4. split; [reflexivity|lia].
         * destruct SH as (-> & _). cbn in C4. left. split; [reflexivity|lia].
         * destruct SH as (-> & _). cbn in C4. split; [reflexivity|lia].
-    - intros n s rs D prog K IV RD DO B CA. destruct n; [exact Logic.I|]. cbn [eval].
+    - intros n s rs D prog brk K IV RD DO B CA. destruct n; [exact Logic.I|]. cbn [eval].
       cbn [known_expr] in K. apply orb_false_elim in K as [Ka Kb].
-      norm_code CA. apply code_at_app in CA as [CA1 CA]. apply code_at_cons in CA as [CAJ CA2].
+      norm_code CA. apply cares_app in CA as [CA1 CA]. apply cares_cons in CA as [CAJ CA2]; [|unfold mkj; destruct o; reflexivity].
       assert (RDa : forall x, D x = true -> reads x a = false).
       { intros x Dx. apply RD in Dx. cbn in Dx. apply orb_false_elim in Dx. tauto. }
       assert (RDb : forall x, D x = true -> reads x b = false).
@@ -526,7 +527,7 @@ Section Sim.
       assert (B1 : tbase st1' + tused st2 <= N.of_nat (length rs)).
       { pose proof (ext_used _ _ E2'). lia. }
       rewrite <- I1' in CA1.
-      specialize (DA n s rs D prog Ka IV1 RDa DOa B1 CA1).
+      specialize (DA n s rs D prog brk Ka IV1 RDa DOa B1 CA1).
       destruct (eval n s a) as [va s1| | | |]; try contradiction; [|rewrite <- I1'; exact DA|exact Logic.I].
       destruct DA as (rs1 & S1 & LN1 & IVa & RA & FRa & SFa).
       specialize (RA _ eq_refl).
@@ -610,9 +611,9 @@ Section Sim.
               pose proof (ext_tbase _ _ EA). lia. }
         assert (B2 : tbase st2a + tused st3a <= N.of_nat (length rs1)).
         { pose proof (ext_used _ _ E4). pose proof (ext_tbase _ _ EA). rewrite LN1. unfold st2a. cbn [tbase set_ip]. lia. }
-        assert (CA2' : code_at prog (ip st2a) cb).
+        assert (CA2' : cares prog brk (ip st2a) cb).
         { rewrite IP2a, IA, I1'. rewrite SZ in CA2. exact CA2. }
-        specialize (DB n s1 rs1 D2 prog Kb IV2 RD2 DOb B2 CA2').
+        specialize (DB n s1 rs1 D2 prog brk Kb IV2 RD2 DOb B2 CA2').
         destruct (eval n s1 b) as [vb s2| | | |]; try contradiction;
           [|eapply star_stops; [exact S2a|exact DB]|exact Logic.I].
         destruct DB as (rs2 & S2 & LN2 & IVb & RBv & FRb & SFb).
@@ -675,10 +676,10 @@ Section Sim.
     pose proof (ext_slot _ _ E3 _ _ S2) as S3.
     assert (LPOS : l < nlocals st1) by (destruct (slot_of_id _ _ _ S1); assumption).
     (* everything up to the commit, for any final register file *)
-    assert (CORE : forall n s rs D prog,
+    assert (CORE : forall n s rs D prog brk,
       known_expr (EAssign x a) = false -> inv st D s rs ->
       (forall y, D y = true -> reads y (EAssign x a) = false) ->
-      tbase st + tused st3 <= N.of_nat (length rs) -> code_at prog (ip st) ca ->
+      tbase st + tused st3 <= N.of_nat (length rs) -> cares prog brk (ip st) ca ->
       match eval n s a with
       | ONorm v s1 => exists rs1, star pool prog (ip st) rs (ip st3) rs1 /\ length rs1 = length rs /\
            inv st3 D (upd s1 x v) rs1 /\ get rs1 l = Some v /\
@@ -689,7 +690,7 @@ Section Sim.
       | OFuel => True
       | _ => False
       end).
-    { intros n s rs D prog K IV RD B CA. cbn [known_expr] in K. apply orb_false_elim in K as [FX Ka].
+    { intros n s rs D prog brk K IV RD B CA. cbn [known_expr] in K. apply orb_false_elim in K as [FX Ka].
       apply negb_false_iff in FX.
       assert (IV1 : inv st1 D s rs) by (eapply inv_ext; eauto).
       assert (DOa : dest_ok st1 (RFixed l) rs D a).
@@ -700,7 +701,7 @@ Section Sim.
       assert (B1 : tbase st1 + tused st2 <= N.of_nat (length rs)).
       { pose proof (ext_tbase _ _ E1). pose proof (ext_used _ _ E3). lia. }
       rewrite <- I1 in CA.
-      specialize (DA n s rs D prog Ka IV1 RD DOa B1 CA).
+      specialize (DA n s rs D prog brk Ka IV1 RD DOa B1 CA).
       destruct (eval n s a) as [va s1| | | |]; try contradiction; [|rewrite <- I1; exact DA|exact Logic.I].
       destruct DA as (rs1 & St & LN & IVa & RA & FRa & SFa).
       specialize (RA _ eq_refl).
@@ -724,8 +725,8 @@ Section Sim.
         * rewrite !code_size_app. cbn [code_size]. lia.
         * eapply ext_trans; [exact E1|eapply ext_trans; eauto].
         * cbn [shape]. split; [reflexivity|lia].
-      + intros n s rs D prog K IV RD DO B CA. destruct n; [exact Logic.I|]. cbn [eval].
-        norm_code CA. specialize (CORE n s rs D prog K IV RD B CA).
+      + intros n s rs D prog brk K IV RD DO B CA. destruct n; [exact Logic.I|]. cbn [eval].
+        norm_code CA. specialize (CORE n s rs D prog brk K IV RD B CA).
         destruct (eval n s a) as [va s1| | | |]; auto.
         destruct CORE as (rs1 & St & LN & IVf & G & FR & SF).
         exists rs1. splits; auto.
@@ -740,8 +741,8 @@ Section Sim.
         * rewrite !code_size_app. cbn [code_size]. lia.
         * eapply ext_trans; [exact E1|eapply ext_trans; eauto].
         * cbn [shape]. right. exists x, l. splits; auto. lia.
-      + intros n s rs D prog K IV RD DO B CA. destruct n; [exact Logic.I|]. cbn [eval].
-        norm_code CA. specialize (CORE n s rs D prog K IV RD B CA).
+      + intros n s rs D prog brk K IV RD DO B CA. destruct n; [exact Logic.I|]. cbn [eval].
+        norm_code CA. specialize (CORE n s rs D prog brk K IV RD B CA).
         destruct (eval n s a) as [va s1| | | |]; auto.
         destruct CORE as (rs1 & St & LN & IVf & G & FR & SF).
         exists rs1. splits; auto.
@@ -759,8 +760,8 @@ Section Sim.
           -- rewrite !code_size_app. cbn [code_size]. lia.
           -- eapply ext_trans; [exact E1|eapply ext_trans; eauto].
           -- cbn [shape]. split; [reflexivity|lia].
-        * intros n s rs D prog K IV RD DO B CA. destruct n; [exact Logic.I|]. cbn [eval].
-          norm_code CA. specialize (CORE n s rs D prog K IV RD B CA).
+        * intros n s rs D prog brk K IV RD DO B CA. destruct n; [exact Logic.I|]. cbn [eval].
+          norm_code CA. specialize (CORE n s rs D prog brk K IV RD B CA).
           destruct (eval n s a) as [va s1| | | |]; auto.
           destruct CORE as (rs1 & St & LN & IVf & G & FR & SF).
           exists rs1. splits; auto.
@@ -775,17 +776,17 @@ Section Sim.
           -- eapply ext_trans; [exact E1|eapply ext_trans; [exact EA|eapply ext_trans; [exact E3|apply ext_set_ip]]].
           -- apply wfst_set_ip. assumption.
           -- cbn [shape tcount set_ip]. split; [reflexivity|lia].
-        * intros n s rs D prog K IV RD DO B CA. destruct n; [exact Logic.I|]. cbn [eval].
-          norm_code CA. apply code_at_app in CA as [CA1 CA2].
+        * intros n s rs D prog brk K IV RD DO B CA. destruct n; [exact Logic.I|]. cbn [eval].
+          norm_code CA. apply cares_app in CA as [CA1 CA2].
           assert (B' : tbase st + tused st3 <= N.of_nat (length rs)) by exact B.
-          specialize (CORE n s rs D prog K IV RD B' CA1).
+          specialize (CORE n s rs D prog brk K IV RD B' CA1).
           destruct (eval n s a) as [va s1| | | |]; auto.
           destruct CORE as (rs1 & St & LN & IVf & G & FR & SF).
           destruct (DO _ eq_refl) as (DLN & DPOS & _).
           assert (DLN1 : d < N.of_nat (length rs1)) by (rewrite LN; exact DLN).
           destruct (set_ok rs1 d va DLN1) as (rs2 & SET).
           assert (CA2' : code_at prog (ip st3) [ICopy d l]).
-          { rewrite I3, IA, I1. exact CA2. }
+          { apply (cares_one _ brk); [reflexivity|]. rewrite I3, IA, I1. exact CA2. }
           pose proof (istep_at pool _ _ _ rs1 CA2') as ST. cbn [exec] in ST.
           unfold with_reg, put in ST. rewrite G, SET in ST.
           set (st4 := set_ip st3 (ip st3 + size (ICopy d l))).
